@@ -57,7 +57,30 @@ Tot(conds, st, G(_, _)) == SumR([j \in DOMAIN conds |-> Mul(W(conds[j]), G(conds
 HasKind(conds, kd) == \E j \in DOMAIN conds : conds[j].kind = kd
 \* ---------------- one optimizer step (SGD with momentum mu = <<mn, md>>; first step: buffer = gradient)
 Buf(st, v, g, mu) == IF st.k = 0 THEN g ELSE Add(Mul(mu, v), g)
-Step(cfg, st) ==
+\* ---------------- a second optimizer, "two": TWO closure evaluations per step and a NON-TENSOR state entry (the family of LBFGS:
+\* line searches re-evaluate the loss inside optimizer.step(), and keep counters / lists in their state).  Exact in rationals:
+\*     g1 = grad(theta);  theta' = theta - (lr/2) g1;  g2 = grad(theta');  theta'' = theta' - (lr/2) c_n g2;  n = n + 1
+\* with c_0 = 1 and c_n = 2 afterwards (n is a python int in optimizer.state; it equals the number of steps of this optimizer).
+IsTwo(cfg) == "opt" \in DOMAIN cfg /\ cfg.opt = "two"
+Half(cfg, st, h, c) ==
+    LET cs == cfg.train
+        ad == {j \in DOMAIN cs : cs[j].kind = "adapt"}
+        gl == [i \in DOMAIN st.lam |-> IF ad = {} THEN R(0) ELSE LET cc == cs[CHOOSE j \in ad : TRUE] IN Mul(W(cc), GradL(cc, st, i))]
+        hc == MulI(h, c)
+    IN [st EXCEPT !.a = Sub(st.a, Mul(hc, Tot(cs, st, GradA))), !.b = Sub(st.b, Mul(hc, Tot(cs, st, GradB))),
+                  !.kap = IF HasKind(cs, "inv") \/ HasKind(cs, "pen") THEN Sub(st.kap, Mul(hc, Tot(cs, st, GradK))) ELSE st.kap,
+                  !.lam = [i \in DOMAIN st.lam |-> Sub(st.lam[i], Mul(hc, gl[i]))]]
+Step2(cfg, st) ==
+    LET h == Mul(st.lr, <<1, 2>>)
+        s1 == Half(cfg, st, h, 1)
+        k2 == st.k + 1
+        sc2 == IF cfg.ssize > 0 /\ k2 % cfg.freq = 0 THEN st.sched + 1 ELSE st.sched
+        lr2 == IF cfg.ssize > 0 /\ sc2 # st.sched /\ sc2 % cfg.ssize = 0 THEN Mul(st.lr, <<cfg.gn, cfg.gd>>) ELSE st.lr
+        fits1 == Fits(s1.a) /\ Fits(s1.b) /\ Fits(s1.kap) /\ \A i \in DOMAIN s1.lam : Fits(s1.lam[i])
+    \* (an intermediate point outside the magnitude budget: the step is not computed; the marker state fails StateFits)
+    IN IF ~fits1 THEN [st EXCEPT !.a = <<16384, 1>>, !.k = k2]
+       ELSE [Half(cfg, s1, h, IF st.k = 0 THEN 1 ELSE 2) EXCEPT !.lr = lr2, !.k = k2, !.sched = sc2]
+StepSGD(cfg, st) ==
     LET cs == cfg.train
         mu == <<cfg.mun, cfg.mud>>
         ga == Tot(cs, st, GradA)  gb == Tot(cs, st, GradB)  gk == Tot(cs, st, GradK)
@@ -72,6 +95,7 @@ Step(cfg, st) ==
         kap |-> IF HasKind(cs, "inv") \/ HasKind(cs, "pen") THEN Sub(st.kap, Mul(st.lr, vk)) ELSE st.kap,
         lam |-> [i \in DOMAIN st.lam |-> Sub(st.lam[i], Mul(st.lr, vl[i]))],
         va |-> va, vb |-> vb, vk |-> vk, vl |-> vl, lr |-> lr2, k |-> k2, sched |-> sc2]
+Step(cfg, st) == IF IsTwo(cfg) THEN Step2(cfg, st) ELSE StepSGD(cfg, st)
 Init0(cfg) == [a |-> R(cfg.a0), b |-> R(cfg.b0), kap |-> R(cfg.k0), lam |-> [i \in 1..cfg.nl |-> R(1)],
                va |-> R(0), vb |-> R(0), vk |-> R(0), vl |-> [i \in 1..cfg.nl |-> R(0)],
                lr |-> <<cfg.lrn, cfg.lrd>>, k |-> 0, sched |-> 0]
